@@ -86,10 +86,60 @@ def install_kdf_counter() -> None:
 
 STALL_TICK = 10.0  # seconds; two consecutive ticks without a single dpapi_ng line event = the call is blocked (e.g. on a lock)
 _stall = {"last": -1, "ticks": 0, "installed": False}
+# shard-level idle watchdog (armed by the runner for the whole shard): the harnesses never sleep, so a worker that burns no CPU time for
+# three ticks is blocked in the code under test outside a budgeted call (e.g. a lock left held by an earlier, failed call)
+_idle = {"on": False, "cpu": 0.0, "ticks": 0, "suspend": 0}
+
+
+def _idle_check() -> None:
+    import time
+
+    if not _idle["on"] or _idle["suspend"]:
+        return
+    cpu = time.process_time()
+    if cpu - _idle["cpu"] < 0.02:
+        _idle["ticks"] += 1
+        if _idle["ticks"] >= 3:
+            S.poisoned = True
+            _idle["ticks"] = 0
+            raise ShardAbort(f"blocked: the process used no CPU time for {3 * STALL_TICK:.0f} s of wall-clock time (waiting on a lock / a read that never returns, outside a budgeted call)")
+    else:
+        _idle["ticks"] = 0
+    _idle["cpu"] = cpu
+
+
+def shard_watch(on: bool) -> None:
+    import signal
+    import threading
+    import time
+
+    if threading.current_thread() is not threading.main_thread():
+        return
+    if on:
+        if not _stall["installed"]:
+            signal.signal(signal.SIGALRM, _on_alarm)
+            _stall["installed"] = True
+        _idle.update(on=True, cpu=time.process_time(), ticks=0, suspend=0)
+        signal.setitimer(signal.ITIMER_REAL, STALL_TICK, STALL_TICK)
+    else:
+        _idle["on"] = False
+        signal.setitimer(signal.ITIMER_REAL, 0)
+
+
+class idle_ok:
+    """the harness itself waits for something that burns no CPU time in this process (a child interpreter)"""
+
+    def __enter__(self):
+        _idle["suspend"] += 1
+
+    def __exit__(self, *a):  # noqa: ANN002
+        _idle["suspend"] -= 1
+        _idle["ticks"] = 0
 
 
 def _on_alarm(signum, frame):  # noqa: ANN001
     if not S.active:
+        _idle_check()
         return
     if S.count == _stall["last"]:
         _stall["ticks"] += 1
@@ -132,7 +182,7 @@ def run(limit: int, fn: t.Callable[..., t.Any], *args: t.Any, kdf_limit: int = 0
     finally:
         S.active = False
         S.kdf_limit = 0
-        if armed:
+        if armed and not _idle["on"]:
             import signal
 
             signal.setitimer(signal.ITIMER_REAL, 0)
